@@ -375,6 +375,55 @@ def r_walks(ctx, only=None):
     ctx.floor("C10.R3", n, 1 if only else 6)
 
 
+def r6_reload(ctx, retsets):
+    """reload: the shadow table is silent, and after the swap the difference is reported whenever a callback is installed - also when the
+    new set holds no key at all (then every old key of the socket is a removal)"""
+    pdb = ctx.pdb
+    fn = pdb.fn("rtr_sync_receive_and_store_pdus")
+    ctx.touch(fn)
+    inits = fn.calls("spki_table_init")
+    ctx.floor("C10.R6", len(inits), 1)
+    for c in inits:
+        ctx.check(vf.expr(fn, c.args[1]) == ("c", 0), "C10.R6", "shadow-init-callback", c.loc(),
+                  "spki_table_init(shadow, %s)" % vf.show(vf.expr(fn, c.args[1])), key="C10.R6:shadow-init")
+    live = ("load", ("fld", ("arg", 0), "rtr_socket.spki_table"))
+    UFP = ("fld", live, "spki_table.update_fp")
+    bad, good = [], []
+
+    def classify(inst, E, counts):
+        if inst.op == "call":
+            if inst.callee == "spki_table_swap":
+                return ["=sw:1"]
+            if inst.callee == "spki_table_notify_diff":
+                a = [vf.expr(fn, x) for x in inst.args]
+                if counts.get("sw") != "1":
+                    bad.append((inst, "spki_table_notify_diff before the swap"))
+                if a[0] != live or a[2] != ("arg", 0):
+                    bad.append((inst, "diff arguments (%s, %s, %s): expected (live table, shadow, own socket)" % tuple(vf.show(x) for x in a)))
+                return ["=df:1"]
+            return None
+        if inst.op == "store" and vf.store_field(inst) == "rtr_socket.serial_number":
+            if counts.get("sw") == "1" and counts.get("df") != "1":
+                if E.facts.get(("M", UFP)) != flow.av_in(0):
+                    bad.append((inst, "commit after the swap without spki_table_notify_diff although a callback may be installed"))
+                else:
+                    good.append(inst)
+            elif counts.get("sw") == "1":
+                good.append(inst)
+        return None
+    es.count_effects(fn, pdb, classify, retsets, init=[("sw", "0"), ("df", "0")], pinned=lambda pe: vf.last_field(pe) == "spki_table.update_fp", cap=96)
+    seen = set()
+    for inst, msg in bad:
+        if (inst.id, msg) not in seen:
+            seen.add((inst.id, msg))
+            ctx.violation("C10.R6", "swap-then-diff", inst.loc(), msg, key="C10.R6:swap-then-diff")
+    if not bad:
+        if not good:
+            raise AnalysisBroken("C10.R6: no commit after the router-key table swap found")
+        ctx.ok("C10.R6", "swap-then-diff", good[0].loc(), "every path from spki_table_swap to the serial store passes spki_table_notify_diff(live, shadow, socket) "
+               "or has update_fp == NULL")
+
+
 def r6_writers(ctx):
     """the callback is configuration of the table object: set at creation, cleared at silent destruction, silenced and restored around
     the reload diff - nothing else may write it (a swap or a copy that touched it would redirect or suppress notifications)"""
@@ -390,6 +439,7 @@ def check(ctx):
     r2(ctx, retsets)
     r3_r5_r6(ctx, retsets)
     r_walks(ctx)
+    r6_reload(ctx, retsets)
     r6_writers(ctx)
     r4(ctx)
     r6_diff(ctx, retsets)
